@@ -37,7 +37,7 @@ def drive_case(bins, case, idx):
         t = {"path": tp}
         if case["customdirs"]:
             t["argmaps"] = {"path": tp + "/cfg/maps"}
-            t["commands"] = {"path": tp + "/scripts"}
+            t["commands"] = {"path": "tools/cmd" if case.get("shareddir") else tp + "/scripts"}
         if ti == 0 and case["resolve"] == "defpath":
             t.setdefault("commands", {})["definitions"] = {"build": {"path": "svc/tools/run-build"}}
         if ti == 0 and case["resolve"] == "def_nopath":
@@ -59,7 +59,7 @@ def drive_case(bins, case, idx):
                     json.dump(content, f)
         candidates = {}
         for tp in tpaths:
-            cdir = (tp + "/scripts") if case["customdirs"] else (tp + "/monorail/cmd")
+            cdir = ("tools/cmd" if case.get("shareddir") else tp + "/scripts") if case["customdirs"] else (tp + "/monorail/cmd")
             cands = []
             for c in cmds:
                 # the real one plus decoys whose names share a prefix/suffix with the command name
